@@ -703,7 +703,9 @@ class KlongInterpreter():
                         except Exception:
                             pass
                 f = self._get_op_fn(x.a.a, x.a.arity)
-                fa = (x.args if isinstance(x.args, list) else [x.args]) if x.args is not None else x.args
+                # the operand of a monad may itself be a list subclass (KGCond, KGExprArray):
+                # only a plain list is an argument list
+                fa = (x.args if type(x.args) is list else [x.args]) if x.args is not None else x.args
                 _y = self.eval(fa[1]) if x.a.arity == 2 else None
                 _x = fa[0] if x.a.a in ['::','∇'] else self.eval(fa[0])
                 return f(_x) if x.a.arity == 1 else f(_x, _y)
